@@ -39,6 +39,13 @@ func fuzzTarget(f *testing.F, name string) {
 			f.Add(s)
 		}
 	}
+	// text as foreign tools write it (BOMs, UTF-16/32, odd tails)
+	if n := encCount(t); n > 0 {
+		step := max(1, n/400)
+		for i := 0; i < n; i += step {
+			f.Add(encInput(t, i))
+		}
+	}
 	seed := fuzzSeed()
 	for i := 0; i < 300; i++ {
 		f.Add(mutation(seed, t, 1_000_000+i))
